@@ -64,7 +64,7 @@ def ladder_job(args):
     else:
         m.T = fixed
     for k in order:
-        if mode == "mixed" and k % 2 == 0:    # every other point on a fresh object: a re-used object must agree with fresh ones
+        if mode in ("mixed", "mixed-asc") and k % 2 == 0:    # every other point on a fresh object: a re-used object must agree with fresh ones
             out[k] = state((names, x0, pts[k], fixed) if axis == "T" else (names, x0, fixed, pts[k]))
             continue
         if axis == "T":
@@ -133,7 +133,7 @@ def check(run):
     run.cov["rule"] = ("(V1) internal energy of every shipped and random synthetic species along temperature ladders at fixed lowering (the proved clause, on the implementation); "
                        "(V2) shipped oxygen / Si-C-O species sets (random subsets with complete charge chains, random order) and random x0: temperature ladders (1000..25000 K, both "
                        "ends, some pairs 0.1 % apart) at several pressures: enthalpy strictly increasing, mean molar mass not increasing beyond 1e-8; pressure ladders (1e4..1e6 Pa) "
-                       "at several temperatures: mean molar mass not decreasing beyond 1e-8, electron mole fraction (above 1e-7) not increasing beyond 1e-6 relative. Half of the ladders are walked on ONE re-used object (assigning T / P ascending, descending or shuffled after a solve elsewhere; 'mixed' = every other point on a fresh object), the rest on fresh objects. Adjacent "
+                       "at several temperatures: mean molar mass not decreasing beyond 1e-8, electron mole fraction (above 1e-7) not increasing beyond 1e-6 relative. Half of the ladders are walked on ONE re-used object (assigning T / P ascending, descending or shuffled after a solve elsewhere; 'mixed' = every other point on a fresh object; one pinned fine ascending sweep of the full Si-C-O set from 1000 K in 4 % steps with a fresh object between the steps), the rest on fresh objects. Adjacent "
                        "ladder points are compared (monotone along the ladder = all ordered pairs on it). distinct = (species set, x0, T, P)")
     run.cov["trusted_base"] = common.TRUSTED_COMMON + [
         "PARTIAL: frozen heat capacity, the ideal-mixture pressure response of exact minimisers and the single-ionisation closed form are theorems; the reactive heat capacity, "
@@ -167,6 +167,10 @@ def check(run):
         for T in ([1000.0, 25000.0] if thorough else []) + [rng.uniform(1000, 25000) for _ in range(8 if thorough else 4)]:
             md, first = mode()
             jobs.append((names, x0, "P", T, ladder(rng, 1e4, 1e6, 24 if thorough else 10, True), md, first))
+    # a fine ascending sweep on one object started cold, where every element sits in one tightly bound molecule (CO / SiO at 1000 K):
+    # steps of 4 % on the object, a fresh object in between each of them
+    sets.append((list(gen.SICO), list(gen.SICO_X0), "sico-fine-sweep"))
+    jobs.append((sets[-1][0], sets[-1][1], "T", 101325.0, [1000.0 * 1.02 ** k for k in range(110 if thorough else 100)], "mixed-asc", (1000.0, 101325.0)))
     with Pool(16) as pool:
         results = pool.map(ladder_job, jobs, chunksize=1)
     groups, modes = {}, {}
